@@ -26,24 +26,82 @@ TreeEq(a, b) ==
     /\ Len(a.kids) = Len(b.kids)
     /\ \A i \in 1..Len(a.kids) : TreeEq(a.kids[i], b.kids[i])
 
+\* C04: "each single deviation produces the corresponding diagnostic class".  cls = the classes of all
+\* diagnostics and of the error (if any) of the run; ev.case is the descriptor the document was built from.
+VersionClasses == {"BlockRefTooNew", "BlockRefDeprecated", "EnumRefTooNew", "EnumRefDeprecated"}
+\* early: a strict run that stopped at a version problem of an enclosing element says nothing about
+\* the later items
+Corresponding(c, cls, early) ==
+    LET k == c.k
+        noise == cls \ VersionClasses
+    IN CASE k \in {"enum_item", "kid_version"} /\ early -> noise = {}
+         [] k = "pos" -> IF c.atbest THEN cls = {} ELSE noise = {}
+         \* c.amb: the token that follows the deleted parameter has the lexical class of the parameter, so
+         \* the shortened document may itself be a document of the grammar
+         [] k = "delparam" -> c.amb \/ noise # {}
+         [] k = "retype" -> noise # {}
+         [] k = "enum_unknown" -> "InvalidEnumValue" \in cls
+         [] k = "enum_item" -> /\ ("EnumRefTooNew" \in cls) = (c.since # 0 /\ c.ver < c.since)
+                               /\ ("EnumRefDeprecated" \in cls) = (c.until # 0 /\ c.ver > c.until /\ ~(Strict /\ c.since # 0 /\ c.ver < c.since))
+                               /\ noise = {}
+         [] k = "kid_version" -> /\ ("BlockRefTooNew" \in cls) = (c.since # 0 /\ c.ver < c.since)
+                                 /\ noise = {}
+         [] k = "kid_absent" -> "InvalidMultiplicityNotPresent" \in cls
+         \* (c.amb: the sub-element is a keyword that ends in an open identifier list, which swallows the tag of
+         \* its own repetition)
+         [] k = "kid_twice" -> c.amb \/ "InvalidMultiplicityTooMany" \in cls
+         \* (behind an open-ended identifier list the tag of a keyword is swallowed as an identifier)
+         [] k = "kid_wrongform" -> noise # {}
+         [] k = "end_tag" -> "IncorrectEndTag" \in cls
+         [] k = "no_end" -> noise # {}
+         \* (c.amb: the element ends in an open sequence of numbers, which takes the extra number)
+         [] k = "extra_token" -> c.amb \/ noise # {}
+         [] k = "unknown_kid" -> "UnknownSubBlock" \in cls
+         [] k = "seqbad" -> noise # {}
+         [] k = "seqlen" -> noise = {}
+         [] k = "file" -> CASE c.what = "no_version" -> "MissingVersionInfo" \in cls
+                            [] c.what = "bad_version" -> "InvalidVersion" \in cls
+                            [] c.what = "version_garbled" -> "MissingVersionInfo" \in cls
+                            [] c.what = "trailing" -> "AdditionalTokensError" \in cls
+                            [] c.what = "empty_project_missing" -> "InvalidMultiplicityNotPresent" \in cls
+                            [] OTHER -> "InvalidMultiplicityTooMany" \in cls
+         [] OTHER -> TRUE
+ClassesOf(r) == {r.diags[i].c : i \in 1..Len(r.diags)} \cup (IF r.ok THEN {} ELSE {r.e.c})
+
 Verdict(ev) ==
     LET r == Run IN
-    IF ev.out.ok
-    THEN /\ Chk("Outcome", r.ok)
-         /\ r.ok => /\ Chk("Diagnostics", DiagSeq(r.diags) = LoggedDiags(ev.out))
+    /\ ("case" \in DOMAIN ev => Chk("CorrespondingClass", Corresponding(ev.case, ClassesOf(r), Strict /\ ~r.ok /\ r.e.c \in {"BlockRefTooNew", "EnumRefTooNew"})))
+    /\ IF ev.out.ok
+       THEN /\ Chk("Outcome", r.ok)
+            /\ r.ok => /\ Chk("Diagnostics", DiagSeq(r.diags) = LoggedDiags(ev.out))
                     \* which token lands in which field is decided here; whether the token text denotes the value
                     \* the library stored (number notation, string escapes) is compared by the driver
                     /\ PrintT(<<"TREE", l - 1, ToJson(r.tree)>>)
-    ELSE /\ Chk("Outcome", ~r.ok)
-         /\ ~r.ok => Chk("ErrorClass", r.e.c = ev.out.e[1] /\ (ev.out.e[2] = -1 \/ r.e.line = ev.out.e[2]))
+       ELSE /\ Chk("Outcome", ~r.ok)
+            /\ ~r.ok => Chk("ErrorClass", r.e.c = ev.out.e[1] /\ (ev.out.e[2] = -1 \/ r.e.line = ev.out.e[2]))
+
+\* C06: strict and non-strict loading of the same document (pair events: the two observed outcomes)
+\*  R1  strict succeeds => lenient succeeds
+\*  R2  lenient succeeds without warnings => strict succeeds with an equal model and no warnings
+\*  R3  (documents without IF_DATA) strict fails <=> lenient fails or reports a problem other than a
+\*      deprecation notice; equal models when both succeed
+PairVerdict(ev) ==
+    LET s == ev.s  n == ev.n
+        serious == \E i \in 1..Len(n.diags) : n.diags[i][1] \notin Deprecations
+    IN /\ Chk("R1", s.ok => n.ok)
+       /\ Chk("R2", (n.ok /\ n.diags = <<>>) => (s.ok /\ s.diags = <<>> /\ ev.modelEq))
+       /\ Chk("R3", ~ev.noIfData \/ ((~s.ok) <=> (~n.ok \/ serious)))
+       /\ Chk("R3eq", (s.ok /\ n.ok) => ev.modelEq)
 
 TraceInit == Doc = <<>> /\ Strict = FALSE /\ l = 1
 TraceNext == /\ l <= Len(Rec)
-             /\ Doc' = Rec[l].toks /\ Strict' = Rec[l].strict
+             /\ IF "pair" \in DOMAIN Rec[l] THEN UNCHANGED <<Doc, Strict>>
+                ELSE Doc' = Rec[l].toks /\ Strict' = Rec[l].strict
              /\ l' = l + 1
 TraceSpec == TraceInit /\ [][TraceNext]_tvars
 
-Judge == l > 1 => (IF Verdict(Rec[l - 1]) THEN TRUE ELSE PrintT(<<"REJECT", l - 1>>))
+Judge == l > 1 => (IF (IF "pair" \in DOMAIN Rec[l - 1] THEN PairVerdict(Rec[l - 1]) ELSE Verdict(Rec[l - 1]))
+                   THEN TRUE ELSE PrintT(<<"REJECT", l - 1>>))
 
 TraceAccepted ==
     LET d == TLCGet("stats").diameter IN
